@@ -9,6 +9,7 @@
 From NDN Require Import Base.Prelude Base.Text Model.TlvVar Model.Name Model.Trie Model.Dispatch Spec.DispatchSpec.
 From NDN Require Import Proofs.TrieProofs Proofs.DispatchProofs Proofs.DispatchHistory Proofs.DispatchTop
   Proofs.TrieInverse Proofs.ConstsAppAgree Proofs.ReplyBridge Proofs.NameUriName Proofs.NameNormalize.
+From NDN Require Import Model.DispatchV1 Spec.DispatchV1Spec Proofs.DispatchV1.
 From NDN Require Properties.C04Findings.
 Local Open Scope N_scope.
 
@@ -202,6 +203,56 @@ Proof. exact (reply_gen_eq d t r). Qed.
 Theorem C04_tie_deadline life now : Generated.ReplyGen.deadline_gen life now = deadline_of FE_V2 life now.
 Proof. exact (deadline_gen_eq life now). Qed.
 
+(* ---- the registration API of the legacy front-end (route / register / unregister: Model/DispatchV1.v) ------
+   vexec fe st0 l = the state after ANY history l of the events above and of the table steps of
+   register(k, h | None, ...) and unregister(k), in whatever order the loop ran them and whatever the forwarder
+   answered (answers are not events: they never reach the table). *)
+Theorem C04_v1_lpm fe l n h :
+  Forall wf_vop l ->
+  let t := s_fib (vexec fe st0 l) in
+  dispatch t n = Some h <-> exists p, is_lpm (attached t) n p h.
+Proof. exact (v1_lpm fe l n h). Qed.
+Print Assumptions C04_v1_lpm.
+
+Theorem C04_v1_none fe l n :
+  Forall wf_vop l ->
+  let t := s_fib (vexec fe st0 l) in
+  dispatch t n = None <-> forall p, prefix p n -> attached t p = None.
+Proof. exact (v1_none fe l n). Qed.
+Print Assumptions C04_v1_none.
+
+(* register(k, None): the forwarder is told, the table is not: no handler attached, detached or hidden *)
+Theorem C04_v1_register_without_handler fe s k v ex : vstep fe s (VRegister k None v ex) = (s, ObOk).
+Proof. exact (v1_register_none fe s k v ex). Qed.
+Print Assumptions C04_v1_register_without_handler.
+
+(* register(k, h) attaches as set_interest_filter does (so C04_duplicate_refused / C04_attach_frame apply) *)
+Theorem C04_v1_register_is_attach fe s k h v ex :
+  vstep fe s (VRegister k (Some h) v ex) = step fe s (OAttach k (Some h) v ex).
+Proof. exact (v1_register_some fe s k h v ex). Qed.
+Print Assumptions C04_v1_register_is_attach.
+
+(* unregister(k): never an error, k is free afterwards, every other prefix keeps its handler *)
+Theorem C04_v1_unregister_frame fe l k :
+  Forall wf_vop l ->
+  let s := vexec fe st0 l in
+  let r := vstep fe s (VUnregister k) in
+  snd r = ObOk /\ attached (s_fib (fst r)) k = None /\
+  (forall q, q <> k -> attached (s_fib (fst r)) q = attached (s_fib s) q) /\
+  s_pending (fst r) = s_pending s /\ s_calls (fst r) = s_calls s.
+Proof. exact (v1_unregister_frame fe l k). Qed.
+Print Assumptions C04_v1_unregister_frame.
+
+(* event by event these histories are the specification machine's (Spec/DispatchV1Spec.v) *)
+Theorem C04_v1_refines fe l sl :
+  svops_of fe l = Some sl ->
+  map abs_obs (snd (vrun_ops fe l)) = map Some (snd (svrun fe sl)) /\
+  s_calls (fst (vrun_ops fe l)) = ss_calls (fst (svrun fe sl)) /\
+  s_pending (fst (vrun_ops fe l)) = ss_pending (fst (svrun fe sl)) /\
+  forall p, attached (s_fib (fst (vrun_ops fe l))) p = ss_att (fst (svrun fe sl)) p.
+Proof. exact (v1_refines fe l sl). Qed.
+Print Assumptions C04_v1_refines.
+
 (* non-vacuity: a history on the v2 front-end with nested and sibling prefixes (/, /a, /a/b, /a/b/c, /e),
    a refused duplicate, a detach, Interests before and after; every hypothesis above is met by it *)
 Definition ex_a : bytes := [8;1;97].
@@ -243,4 +294,23 @@ Proof.
   { intros x Hx. exists 8, [x]. split; [vm_compute; reflexivity|]. split; [split; lia|].
     split; [repeat constructor; exact Hx|vm_compute; reflexivity]. }
   repeat constructor; apply U; lia.
+Qed.
+
+(* non-vacuity of the registration statements: handler 1 at /a; /a/b announced to the forwarder without a
+   handler -- /a/b/c still reaches 1 --; then registered with handler 2 (a second registration is refused);
+   unregistered twice (never an error) -- /a/b/c reaches 1 again *)
+Definition ex_v1 : list vop :=
+  [VBase (OAttach [ex_a] (Some 1) None (false, false)); VRegister [ex_a; ex_b] None None (false, false);
+   VBase (ORecv [ex_a; ex_b; ex_c] None 1000); VBase OSettle;
+   VRegister [ex_a; ex_b] (Some 2) None (true, false); VRegister [ex_a; ex_b] (Some 3) None (false, false);
+   VBase (ORecv [ex_a; ex_b; ex_c] None 1000); VBase OSettle;
+   VUnregister [ex_a; ex_b]; VUnregister [ex_a; ex_b]; VBase (ORecv [ex_a; ex_b; ex_c] None 1000); VBase OSettle].
+Example C04_v1_example :
+  Forall wf_vop ex_v1 /\ (exists sl, svops_of FE_V1 ex_v1 = Some sl) /\
+  snd (vrun_ops FE_V1 ex_v1) =
+    [ObOk; ObOk; ObRecv (LHit [ex_a] 1); ObCalls [mk_call 1 [ex_a; ex_b; ex_c] 0];
+     ObOk; ObErr EValue; ObRecv (LHit [ex_a; ex_b] 2); ObCalls [mk_call 2 [ex_a; ex_b; ex_c] 0];
+     ObOk; ObOk; ObRecv (LHit [ex_a] 1); ObCalls [mk_call 1 [ex_a; ex_b; ex_c] 0]].
+Proof.
+  split; [repeat (constructor; try exact I)|]. split; [eexists; vm_compute; reflexivity|]. vm_compute. reflexivity.
 Qed.
